@@ -16,6 +16,7 @@ import struct
 from common import coq
 
 PID = "C14"
+GENS = ["c14"]          # gen/c14.py -> coq/Gen/C14_gen.v (shared by C14 / C15 / C16)
 LEVEL_TEXT = ("Machine-checked proof (Coq) over an executable model of the server side of auth_handler.py that "
               "USERAUTH_SUCCESS / the authenticated flag only arise in a step whose credential callback for the "
               "pinned username and the request's method returned AUTH_SUCCESSFUL, for publickey additionally only "
@@ -25,7 +26,9 @@ LEVEL_TEXT = ("Machine-checked proof (Coq) over an executable model of the serve
               "signature verifies for at most one message per key).  Tied to the source by a differential run of "
               "the model (vm_compute) against the real AuthHandler on generated request sequences every run.")
 LEVEL_NOTE = ("Trusted: Coq kernel + vm_compute; hand-written model coq/Model/C14.v validated by the correspondence "
-              "run only; callbacks, GSS context and signature verification are oracles (real keys are exercised by "
+              "run; its message numbers, AUTH_* values, handler-table key sets, failure limit and disconnect codes are "
+              "regenerated from the source each run by the fail-closed translator gen/c14.py; verify_ssh_sig is a "
+              "three-valued oracle (true / false / raises); callbacks, GSS context and signature verification are oracles (real keys are exercised by "
               "the implementation-level oracle, not by the proof); request parsing (Message.get_*) is C39's; the "
               "model dispatches through the active auth handler's table as bound methods, whereas the real run loop "
               "raises TypeError for GssapiWithMicAuthHandler's unbound table entries (fewer behaviours, all safe).")
@@ -494,8 +497,31 @@ def model_case(sid, steps):
 # C14 oracle: success only with approval and valid proof
 
 def c14_oracle(ctx, sid, steps, recs):
+    pending = {"interactive": None, "gss": None}     # username an unfinished exchange was started for
     for i, rec in enumerate(recs):
         tr = rec["trace"]
+        started = dict(pending)
+        for ev in tr:
+            if ev[0] == "cb" and ev[1] == "interactive":
+                pending["interactive"] = ev[2] if ev[3] == 3 else None
+        if rec["ptype"] == 50 and rec["after"]["gss"] and not rec["before"]["gss"]:
+            pending["gss"] = rec["info"]["user"].decode("utf-8")
+        elif not rec["after"]["gss"]:
+            pending["gss"] = None
+        if (b"\x34" in sends(tr)) or (rec["after"]["authed"] and not rec["before"]["authed"]):
+            # the user the server now reports (get_username()) must be the one the approving exchange was about
+            about = None
+            if rec["ptype"] == 61 and not rec["before"]["gss"]:
+                about = started["interactive"]
+            elif rec["ptype"] == 66:
+                about = started["gss"]
+            elif rec["ptype"] == 50:
+                about = rec["info"]["user"].decode("utf-8")
+            if about is not None and rec["after"]["user"] != about:
+                ctx.fail("success-for-other-username",
+                         "the server reports %r as authenticated, but the approving exchange was started for %r" % (
+                             rec["after"]["user"], about), case=case_repr(sid, steps[:i + 1]),
+                         expected=about, observed=rec["after"]["user"])
         succ = (b"\x34" in sends(tr)) or (rec["after"]["authed"] and not rec["before"]["authed"])
         info = rec["info"]
         kind = info.get("kind")
@@ -539,6 +565,15 @@ def c14_oracle(ctx, sid, steps, recs):
                          case=case_repr(sid, steps[:i + 1]), expected="USERAUTH_FAILURE", observed=repr(tr))
 
 
+def guarded_mismatches(ctx, fn, ty, cases, shard=150, imports="From PV Require Import C39 C14."):
+    """The model run must never take the implementation-level oracle down with it."""
+    try:
+        return ctx.model_mismatches(fn, ty, cases, imports=imports, shard=shard)
+    except Exception as e:  # noqa
+        ctx.disagree("model evaluation failed (%s): %s" % (fn, str(e)[-600:]))
+        return []
+
+
 def run_sequences(ctx, nseq, oracle, label, profiles=None):
     """Shared by C14 and C16: generate, drive the real code, apply the oracle, compare with the model."""
     World, _, _ = make_world()
@@ -562,8 +597,7 @@ def run_sequences(ctx, nseq, oracle, label, profiles=None):
                 kept.append((sid, steps, canon))
             if reached and len(ctx.samples) < 3:
                 ctx.sample({"sid": sid, "steps": [repr(s[3]) for s in steps[:4]], "impl": canon[:60]})
-    bad = ctx.model_mismatches("run_auth", "(list Z * list (amsg * env))", cases,
-                               imports="From PV Require Import C39 C14.", shard=90)
+    bad = guarded_mismatches(ctx, "run_auth", "(list Z * list (amsg * env))", cases, shard=90)
     for i in bad[:3]:
         ctx.disagree("AuthHandler behaviour differs from model (run_auth)",
                      case=case_repr(kept[i][0], kept[i][1]), impl=kept[i][2])
@@ -702,8 +736,7 @@ def blob_cases(ctx, n):
         ctx.count(("blob", sid, user, service, alg, keyblob), kind="session-blob")
         cases.append((coq((sid, user, service, alg, key.asbytes())), [0] + list(got)))
         raw.append((sid, user, service, alg, key.asbytes(), got))
-    bad = ctx.model_mismatches("run_blob", "(list Z * list Z * list Z * list Z * list Z)", cases,
-                               imports="From PV Require Import C39 C14.")
+    bad = guarded_mismatches(ctx, "run_blob", "(list Z * list Z * list Z * list Z * list Z)", cases)
     for i in bad[:3]:
         ctx.disagree("_get_session_blob differs from model", case={"fields": raw[i][:5]}, impl=raw[i][5])
 
@@ -742,6 +775,58 @@ def sig_witness(ctx):
                                  ", key.verify_ssh_sig raises" if variant == "verify-raises" else "", got),
                              case=case_repr(sid, steps), expected="authenticated == %r" % (variant == "valid"),
                              observed=repr(tr))
+
+
+def pin_witness(ctx):
+    """Deterministic histories mixing a pending exchange (keyboard-interactive / gssapi-with-mic) started for one
+    username with requests under another username, then the approving completion of the exchange: whoever the
+    server reports as authenticated must be the user the exchange was started for (and nobody else)."""
+    World, _, _ = make_world()
+    holder = {}
+    base = {"gss": True, "mechok": True, "tok": 2, "micok": True, "kexctx": True, "banner": False}
+
+    def req(user, method, extra=b""):
+        return s_(user) + s_(b"ssh-connection") + s_(method) + extra
+
+    pw = b"\x00" + s_(b"pw")
+    hists = {
+        "interactive alice pending, failed password bob, alice's INFO_RESPONSE approved": [
+            (50, req(b"alice", b"keyboard-interactive", s_(b"") + s_(b"")), dict(base, res=3)),
+            (50, req(b"bob", b"password", pw), dict(base, res=2)),
+            (61, struct.pack(">I", 1) + s_(b"answer"), dict(base, res=0))],
+        "interactive alice pending, 'none' as bob (partial), alice's INFO_RESPONSE approved": [
+            (50, req(b"alice", b"keyboard-interactive", s_(b"") + s_(b"")), dict(base, res=3)),
+            (50, req(b"bob", b"none"), dict(base, res=1)),
+            (61, struct.pack(">I", 0), dict(base, res=0))],
+        "gssapi-with-mic alice pending, failed password bob, gssapi-with-mic alice again, token, MIC approved": [
+            (50, req(b"alice", b"gssapi-with-mic", struct.pack(">I", 1) + s_(b"\x06\x09mech")), dict(base, res=0)),
+            (50, req(b"bob", b"password", pw), dict(base, res=2)),
+            (50, req(b"alice", b"gssapi-with-mic", struct.pack(">I", 1) + s_(b"\x06\x09mech")), dict(base, res=0)),
+            (61, s_(b"tok"), dict(base, res=0)), (66, s_(b"mic"), dict(base, res=0))],
+        "failed password alice, approved password bob": [
+            (50, req(b"alice", b"password", pw), dict(base, res=2)),
+            (50, req(b"bob", b"password", pw), dict(base, res=0))],
+    }
+    with gss_patch(holder):
+        for name, hist in sorted(hists.items()):
+            steps = [(p, pl, env, None, {}) for (p, pl, env) in hist]
+            w = World(b"SID-p")
+            holder["world"] = w
+            asked = []          # usernames the credential callbacks were asked about, in order
+            for st in steps:
+                tr = w.deliver(*st[:3])
+                asked += [ev[2] for ev in tr if ev[0] == "cb" and ev[1] != "interactive_response"]
+            ctx.count(("pin-witness", name), kind="pin-witness")
+            who = w.handler.get_username() if w.handler.authenticated else None
+            # the first request pins alice: any later authentication can only be alice's
+            if w.handler.authenticated and who != "alice" or "bob" in asked:
+                short = ("interactive-pending" if name.startswith("interactive") else
+                         "gssapi-pending" if name.startswith("gssapi") else "after-pin")
+                ctx.fail(("success-for-other-username:" if w.handler.authenticated else "other-username-evaluated:") + short,
+                         "history [%s]: server reports %r as authenticated; callbacks were asked about %r" % (
+                             name, who, asked), case=case_repr(b"SID-p", steps),
+                         expected="only alice (pinned by the first request) can be authenticated / evaluated",
+                         observed={"authenticated_as": who, "asked": asked})
 
 
 def gss_witness(ctx):
@@ -807,10 +892,11 @@ def run(ctx):
     ctx.assumptions += ["sig_binds (premise of C14_replay_never_auths): a signature verifies for at most one message "
                         "under a given key (symbolic signature assumption)",
                         "usernames / services are valid UTF-8 (byte equality = str equality)"]
-    ctx.prove()
+    ctx.prove(GENS)
     scale = 6 if ctx.thorough else 1
     gss_witness(ctx)
     sig_witness(ctx)
+    pin_witness(ctx)
     unbound = run_sequences(ctx, 160 * scale, c14_oracle, "seq")
     blob_cases(ctx, 80 * scale)
     n = real_key_cases(ctx)
